@@ -36,7 +36,8 @@ def cases(tier, seed):
                 out.append({'kind': 'sched', 'scenario': sc, 'grid': grid, 'mode': mode, 'bound': b2, 'cost': 300})
         for grid in ([2, 2], [1, 3], [3, 1]):
             for sc in ('S1', 'S2', 'S3', 'S4', 'S5', 'S7'):
-                out.append({'kind': 'sched', 'scenario': sc, 'grid': grid, 'mode': mode, 'bound': b4, 'cost': 600})
+                # S3 / S7 have > 200 choice points on 3-4 ranks: two deviations would be > 10^5 executions each
+                out.append({'kind': 'sched', 'scenario': sc, 'grid': grid, 'mode': mode, 'bound': 1 if sc in ('S3', 'S7') else b4, 'cost': 600})
         if tier == 'thorough':
             for sc in ('S1', 'S2', 'S3', 'S4', 'S5', 'S7'):
                 out.append({'kind': 'sched', 'scenario': sc, 'grid': [2, 3], 'mode': mode, 'bound': 1, 'cost': 900})
